@@ -230,11 +230,31 @@ func factsOf(f *vtrans.File, recv, fn string) fnFacts {
 	if mm == nil {
 		die(fmt.Errorf("%s: the refusal branch has no `if b2g.Block.MerkleRootMatch()`", fn))
 	}
+	// the block is given up only when the Merkle root matches: the condition is a conjunction that starts with that call
+	// (an `||` would let a copy with another transaction list make the node drop the block)
+	for _, c := range conjuncts(mm.Cond) {
+		if b, ok := c.(*ast.BinaryExpr); ok && b.Op == token.LOR {
+			die(fmt.Errorf("%s: the give-up condition %s is not a conjunction", fn, src(f, mm.Cond)))
+		}
+	}
+	if src(f, conjuncts(mm.Cond)[0]) != "b2g.Block.MerkleRootMatch()" {
+		die(fmt.Errorf("%s: the give-up condition %s does not start with b2g.Block.MerkleRootMatch()", fn, src(f, mm.Cond)))
+	}
+	// nothing leaves the refusal branch before that test, nothing leaves the discard branch before its last write
+	for _, s := range ifer.Body.List {
+		if s == ast.Stmt(mm) {
+			break
+		}
+		if leaves(s) {
+			die(fmt.Errorf("%s: the refusal branch can be left before the MerkleRootMatch test (%s)", fn, src(f, s)))
+		}
+	}
 	els, ok := mm.Else.(*ast.BlockStmt)
 	if !ok {
 		die(fmt.Errorf("%s: the MerkleRootMatch test has no plain else branch", fn))
 	}
-	for _, s := range els.List {
+	lastWrite := -1
+	for i, s := range els.List {
 		w, err := writeStmt(f, fn, s)
 		if err != nil {
 			die(err)
@@ -242,6 +262,12 @@ func factsOf(f *vtrans.File, recv, fn string) fnFacts {
 		if len(w) > 0 {
 			ff.discard = append(ff.discard, w...)
 			accounted[s.Pos()] = true
+			lastWrite = i
+		}
+	}
+	for i, s := range els.List {
+		if i < lastWrite && leaves(s) {
+			die(fmt.Errorf("%s: the discard branch can be left before its last statement (%s)", fn, src(f, s)))
 		}
 	}
 	// nothing else in the function may write the object
@@ -258,6 +284,180 @@ func factsOf(f *vtrans.File, recv, fn string) fnFacts {
 		return true
 	})
 	return ff
+}
+
+// conjuncts of a && b && c
+func conjuncts(e ast.Expr) []ast.Expr {
+	if p, ok := e.(*ast.ParenExpr); ok {
+		return conjuncts(p.X)
+	}
+	if b, ok := e.(*ast.BinaryExpr); ok && b.Op == token.LAND {
+		return append(conjuncts(b.X), conjuncts(b.Y)...)
+	}
+	return []ast.Expr{e}
+}
+
+// leaves: the statement contains a return / goto / break / continue / panic / os.Exit (function literals not entered)
+func leaves(n ast.Node) (yes bool) {
+	ast.Inspect(n, func(x ast.Node) bool {
+		switch t := x.(type) {
+		case *ast.FuncLit:
+			return false
+		case *ast.ReturnStmt, *ast.BranchStmt:
+			yes = true
+		case *ast.CallExpr:
+			if id, ok := t.Fun.(*ast.Ident); ok && id.Name == "panic" {
+				yes = true
+			}
+			if se, ok := t.Fun.(*ast.SelectorExpr); ok && (se.Sel.Name == "Exit" || se.Sel.Name == "Goexit") {
+				yes = true
+			}
+		}
+		return true
+	})
+	return
+}
+
+// ---------------------------------------------------------------- the rest of the package
+//
+// scanPackage reads EVERY function of every file of client/network (the package in which a wanted block's btc.Block object
+// lives until queueNewBlock hands it on). No types are resolved; the rule is conservative instead: outside the places
+// factsOf has accounted for, a statement that writes a field NAMED Raw / TxCount / TxOffset / Txs / BlockWeight /
+// TotalInputs of ANY expression, takes the address of one, or calls a method NAMED UpdateContent / BuildTxList /
+// BuildTxListExt / Clean on ANY expression stops the translator - whatever the variable is called (an alias made with
+// `var x = b2g.Block`, a parameter of a helper, the result of a map lookup). The only exceptions are listed here by what
+// they are: the compact-block collector's own `Txs` list (a local initialised with new(CmpctBlockCollector) or from a
+// field called `col`), and GetchBlockForBIP152's build of a block that was already RECEIVED (`crec`, a *BlockRcvd).
+// A block pointer (`<x>.Block`) handed to any function other than PostCheckBlock also stops it: callees outside this
+// package are not read.
+
+func baseSel(x ast.Expr) *ast.SelectorExpr {
+	for {
+		switch t := x.(type) {
+		case *ast.ParenExpr:
+			x = t.X
+		case *ast.IndexExpr:
+			x = t.X
+		case *ast.SliceExpr:
+			x = t.X
+		case *ast.StarExpr:
+			x = t.X
+		case *ast.SelectorExpr:
+			return t
+		default:
+			return nil
+		}
+	}
+}
+
+// isCollector: x is a local whose declaration is `x := new(CmpctBlockCollector)` / `&CmpctBlockCollector{…}` / `<e>.col`
+func isCollector(f *vtrans.File, x ast.Expr) bool {
+	id, ok := x.(*ast.Ident)
+	if !ok || id.Obj == nil {
+		return false
+	}
+	as, ok := id.Obj.Decl.(*ast.AssignStmt)
+	if !ok || len(as.Lhs) != 1 || len(as.Rhs) != 1 {
+		return false
+	}
+	r := src(f, as.Rhs[0])
+	return r == "new(CmpctBlockCollector)" || strings.HasPrefix(r, "&CmpctBlockCollector{") || strings.HasSuffix(r, ".col")
+}
+
+func scanFile(f *vtrans.File, handlers map[string]bool) {
+	for _, d := range f.AST.Decls {
+		fd, ok := d.(*ast.FuncDecl)
+		if !ok || fd.Body == nil {
+			continue
+		}
+		fn := fd.Name.Name
+		inHandler := handlers[fn]
+		own := func(base string) bool { return inHandler && (base == "b2g.Block" || base == "b2g") }
+		where := f.Path + ", func " + fn
+		checkLhs := func(l ast.Expr, st ast.Node) {
+			se := baseSel(l)
+			if se == nil || !parseFields[se.Sel.Name] {
+				return
+			}
+			if own(src(f, se.X)) {
+				return // accounted for (or refused) by factsOf
+			}
+			if se.Sel.Name == "Txs" && isCollector(f, se.X) {
+				return
+			}
+			die(fmt.Errorf("%s: a decoder field (%s) of a block object, or of something this translator cannot tell from one, is written outside the install / discard places of the three handlers: %s", where, se.Sel.Name, src(f, st)))
+		}
+		ast.Inspect(fd.Body, func(x ast.Node) bool {
+			switch t := x.(type) {
+			case *ast.AssignStmt:
+				for _, l := range t.Lhs {
+					checkLhs(l, t)
+				}
+			case *ast.IncDecStmt:
+				checkLhs(t.X, t)
+			case *ast.RangeStmt:
+				if t.Key != nil {
+					checkLhs(t.Key, t.Key)
+				}
+				if t.Value != nil {
+					checkLhs(t.Value, t.Value)
+				}
+			case *ast.UnaryExpr:
+				if t.Op == token.AND {
+					if se := baseSel(t.X); se != nil && parseFields[se.Sel.Name] && !(se.Sel.Name == "Txs" && isCollector(f, se.X)) {
+						die(fmt.Errorf("%s: the address of a decoder field is taken: %s", where, src(f, t)))
+					}
+				}
+			case *ast.CallExpr:
+				if se, ok := t.Fun.(*ast.SelectorExpr); ok && parseMethods[se.Sel.Name] && !own(src(f, se.X)) {
+					if !(fn == "GetchBlockForBIP152" && src(f, t) == "crec.Block.BuildTxList()") {
+						die(fmt.Errorf("%s: a parsing method is called on a block object, or on something this translator cannot tell from one, outside the three handlers: %s", where, src(f, t)))
+					}
+				}
+				callee := src(f, t.Fun)
+				for _, a := range t.Args {
+					if u, ok := a.(*ast.UnaryExpr); ok {
+						a = u.X
+					}
+					if se, ok := a.(*ast.SelectorExpr); ok && se.Sel.Name == "Block" {
+						b := src(f, se.X)
+						if b == "dat" || b == "cipher" || strings.HasPrefix(b, "common.") {
+							continue // cipher.Block / common.Last.Block: other types
+						}
+						if callee != "common.BlockChain.PostCheckBlock" {
+							die(fmt.Errorf("%s: the block object is handed to %s, which this translator does not read: %s", where, callee, src(f, t)))
+						}
+					}
+				}
+			}
+			return true
+		})
+	}
+}
+
+func scanPackage(handlers map[string]bool) int {
+	dir := vtrans.RepoRoot() + "/client/network"
+	ents, err := os.ReadDir(dir)
+	if err != nil {
+		die(err)
+	}
+	n := 0
+	for _, e := range ents {
+		nm := e.Name()
+		if e.IsDir() || !strings.HasSuffix(nm, ".go") || strings.HasSuffix(nm, "_test.go") {
+			continue
+		}
+		f, err := vtrans.Parse("client/network/" + nm)
+		if err != nil {
+			die(err)
+		}
+		scanFile(f, handlers)
+		n++
+	}
+	if n < 10 {
+		die(fmt.Errorf("client/network: only %d source files found", n))
+	}
+	return n
 }
 
 func leanList(l []string) string {
@@ -279,6 +479,7 @@ func main() {
 	full := factsOf(data, "OneConnection", "netBlockReceived")
 	ca := factsOf(cblk, "OneConnection", "ProcessCmpctBlock")
 	cb := factsOf(cblk, "OneConnection", "ProcessBlockTxn")
+	scanned := scanPackage(map[string]bool{"netBlockReceived": true, "ProcessCmpctBlock": true, "ProcessBlockTxn": true})
 	if !ca.headerPrefix {
 		die(fmt.Errorf("ProcessCmpctBlock: `col.Header = b2g.Block.Raw[:80]` not found"))
 	}
@@ -349,6 +550,7 @@ func main() {
 		die(err)
 	}
 	fmt.Printf("FACTS %d\n", 9)
+	fmt.Printf("gen_c09: %d files of client/network scanned for writes to a block object outside the three handlers\n", scanned)
 }
 
 func anyCall(f *vtrans.File, n ast.Node, name string) (l []string) {
